@@ -70,9 +70,19 @@ def configs(tier, seed):
     # conversions
     for _ in range(N(80, 800)):
         x, y = rng.choice(sm), rng.choice(sm)
+        if rng.random() < 0.4:
+            s0, n0, f0 = x
+            k = rng.choice((1, 2, 4))
+            y = rng.choice([(not s0, n0 + k, f0), (not s0, n0, f0), (s0, n0 + k, f0), (s0, max(1, n0 - k), f0), (s0, n0, f0 + k), (not s0, max(1, n0 - k), f0)])
         r, o = rng.choice(C.modes())
-        out.append(dict(part='convert', route=rng.choice(('resize', 'resize_dtype', 'like', 'like_kw', 'from_fxp', 'set_val_fxp', 'equal', 'setitem_fxp')),
+        out.append(dict(part='convert', route=rng.choice(('resize', 'resize', 'resize_partial', 'resize_dtype', 'like', 'like_kw', 'from_fxp', 'set_val_fxp', 'equal', 'setitem_fxp')),
                         x=list(x), y=list(y), rounding=r, overflow=o))
+    # resize to a format that differs in one or two size fields only, all such neighbours of a few sources (both resize spellings)
+    for x in C.pick([q for q in sm if q[1] >= 2], N(6, 40), rng):
+        s0, n0, f0 = x
+        for y in ((not s0, n0 + 2, f0), (not s0, n0, f0), (s0, n0 + 3, f0), (s0, n0 - 1, f0), (s0, n0, f0 + 1), (not s0, n0 - 1, f0), (not s0, n0 + 1, f0 + 1)):
+            r, o = rng.choice(C.modes())
+            out.append(dict(part='convert', route=rng.choice(('resize', 'resize_partial')), x=list(x), y=list(y), rounding=r, overflow=o))
     # reductions and element-wise NumPy functions (both call routes)
     for _ in range(N(60, 600)):
         x = rng.choice([f for f in sm if f[1] <= 8])
@@ -233,6 +243,10 @@ def run(F, cfg, inp):
             d = src.deepcopy()
             d.config.rounding, d.config.overflow = cfg['rounding'], cfg['overflow']
             d.resize(ds, dn, df)
+        elif r == 'resize_partial':
+            d = src.deepcopy()
+            d.config.rounding, d.config.overflow = cfg['rounding'], cfg['overflow']
+            d.resize(**{k_: v_ for k_, v_, old in (('signed', ds, cfg['x'][0]), ('n_word', dn, cfg['x'][1]), ('n_frac', df, cfg['x'][2])) if v_ != old})
         elif r == 'resize_dtype':
             d = src.deepcopy()
             d.config.rounding, d.config.overflow = cfg['rounding'], cfg['overflow']
